@@ -249,9 +249,24 @@ def run_and_judge(ctx, binpath, cases, mode, chunk=60000):
         note(ctx, cs, recs)
         if len(ctx.samples) < 4:
             ctx.samples += sample_records(recs, 4 - len(ctx.samples))
-        n_bad += len(vlib.judge_and_confirm(ctx, cs, recs, lambda xs: execute(binpath, xs),
-                                            lambda rs: judge(ctx, rs, mode)))
+        try:
+            n_bad += len(vlib.judge_and_confirm(ctx, cs, recs, lambda xs: execute(binpath, xs),
+                                                lambda rs: judge(ctx, rs, mode)))
+        except vlib.Infra as e:
+            # All cases of a chunk share one process.  If a failure there does not come back when the case is run on
+            # its own, it may be caused by the calls that preceded it in the process: the call sequences (one fresh
+            # process each, replayed as a whole) decide that reproducibly.  Without a reproduced violation this
+            # stays an infrastructure error (settle_unreproduced).
+            if "none reproduced" not in str(e):
+                raise
+            ctx.extra.setdefault("unreproduced_bulk", []).append(str(e))
+            vlib.log("  " + str(e) + " (deferred to the call sequences)")
     return n_bad
+
+
+def settle_unreproduced(ctx):
+    if ctx.extra.get("unreproduced_bulk") and not ctx.violations:
+        raise vlib.Infra("; ".join(ctx.extra["unreproduced_bulk"]))
 
 
 def in_background(fn):
@@ -315,6 +330,7 @@ def run(ctx):
     finally:
         join()
 
+    settle_unreproduced(ctx)
     if ctx.divergences:
         vlib.log("DIVERGENCE property=%s total=%d (every Judge holds on these cases, the result differs from the Model; not a violation)" % (ctx.prop, ctx.divergences))
     ctx.exhaustive = True
